@@ -233,6 +233,22 @@ def run(ctx):
         p = os.path.join(VERIF, 'build', 'C18', 'first_disagreement.txt'); open(p, 'w').write(small)
         ctx.broken.append(('correspondence:state', 'model and implementation differ (line %s): impl "%s" model "%s"; shrunk sequence: %s' %
                            (d[0], d[1], d[2], small.replace('\n', ' ; '))))
+        # the property's clause "value versions change whenever the corresponding values may have changed", evaluated on the shrunk
+        # history: the model bumps a q/u/z value version exactly when an operation rewrites or discards those values (theorems
+        # C18_value_versions_*, C18_versions_bump_*); an implementation whose version stays behind the model's at the first difference
+        # left a version unchanged although the values may have changed
+        r1, a1 = run_impl(exe, small); r2, m1 = run_model(drv, cf, small)
+        fd = first_diff(a1, m1) if a1 != m1 else None
+        if fd:
+            ma = re.search(r' v=(\d+),(\d+),(\d+)', str(fd[1])); mm = re.search(r' v=(\d+),(\d+),(\d+)', str(fd[2]))
+            if ma and mm:
+                va = [int(x) for x in ma.groups()]; vm = [int(x) for x in mm.groups()]
+                rest_a = re.sub(r' v=\d+,\d+,\d+', '', str(fd[1])); rest_m = re.sub(r' v=\d+,\d+,\d+', '', str(fd[2]))
+                if rest_a == rest_m and all(x <= y for x, y in zip(va, vm)) and va != vm:
+                    ctx.report('impl:value-version-not-bumped', 'a q/u/z value version is left unchanged by an operation after which the values may have changed '
+                               '(they are rewritten or discarded): implementation versions %s, documented model %s after the last operation of the history' % (va, vm),
+                               {'failing_input': small, 'first_difference': {'line': fd[0], 'implementation': fd[1], 'model': fd[2]},
+                                'replay_cmd': 'bin/check C18 --replay <this file>'})
     ctx.assumptions += [
         'Release (NDEBUG) semantics: only the _ALWAYS checks of StateImpl.h throw; the harness is compiled with -DNDEBUG like the libraries',
         'guard: operations violating an assert()/index precondition of the code (advance not by exactly one stage, unknown keys, duplicate or '
